@@ -20,7 +20,8 @@ ASSUMED = ['codegen_hitzer_inv / codegen_shirokov_inv bodies: bounded stand-in o
 
 def build(H, tier, seed):
     U.vc_inv_div_structure(H)
-    M.vc_mv_delegations(H, methods_binary=['div', '__truediv__', '__rtruediv__'], methods_unary=['inv'])
+    M.vc_mv_delegations(H, methods_binary=['div', '__truediv__'], methods_unary=['inv'])
+    # __rtruediv__: operand order matters only for non-numbers on the left (C16); number/x is in the stand-in
     T.vc_tape_pow(H)
 
 
